@@ -1,5 +1,5 @@
 (* Proofs about Model/Predictive.v. *)
-From Coq Require Import List Bool String Arith Lia.
+From Coq Require Import List Bool String Arith Lia Permutation.
 From Chi Require Import Model.Predictive Proofs.Inference.
 Import ListNotations.
 
@@ -129,3 +129,134 @@ Section PredictiveProofs.
       specialize (IH (before + n) H' I). lia.
   Qed.
 End PredictiveProofs.
+
+(* ---------------- param_map and PAM counts ---------------- *)
+Lemma translate_length m names : List.length (translate m names) = List.length names.
+Proof. apply map_length. Qed.
+
+Lemma translate_nth m names j : nth j (translate m names) ""%string = if Nat.ltb j (List.length names) then lookup_map m (nth j names ""%string) else ""%string.
+Proof.
+  unfold translate. destruct (Nat.ltb j (List.length names)) eqn:E.
+  - apply Nat.ltb_lt in E. rewrite (nth_indep _ ""%string (lookup_map m ""%string)) by (rewrite map_length; exact E).
+    apply map_nth.
+  - apply Nat.ltb_ge in E. apply nth_overflow. rewrite map_length. exact E.
+Qed.
+
+(* the order of the dictionary does not matter when its keys are distinct *)
+Lemma find_key_in (m : list (string * string)) n v : NoDup (map fst m) -> In (n, v) m ->
+  find (fun kv => String.eqb (fst kv) n) m = Some (n, v).
+Proof.
+  induction m as [|[k w] m IH]; intros ND H; [destruct H|].
+  cbn [find fst]. inversion ND as [|? ? Hk ND']; subst.
+  destruct (String.eqb k n) eqn:E.
+  - apply String.eqb_eq in E. subst k. destruct H as [H|H]; [congruence|].
+    exfalso. apply Hk. apply (in_map fst) in H. exact H.
+  - destruct H as [H|H]; [inversion H; subst; rewrite String.eqb_refl in E; discriminate|].
+    apply IH; assumption.
+Qed.
+Lemma find_key_none (m : list (string * string)) n : ~ In n (map fst m) -> find (fun kv => String.eqb (fst kv) n) m = None.
+Proof.
+  induction m as [|[k w] m IH]; intros H; [reflexivity|].
+  cbn [find fst]. destruct (String.eqb k n) eqn:E.
+  - apply String.eqb_eq in E. subst. exfalso. apply H. left. reflexivity.
+  - apply IH. intros Hn. apply H. right. exact Hn.
+Qed.
+Lemma lookup_perm (m m' : list (string * string)) n : NoDup (map fst m) -> Permutation m m' -> lookup_map m n = lookup_map m' n.
+Proof.
+  intros ND P. unfold lookup_map.
+  assert (ND' : NoDup (map fst m')) by (eapply Permutation_NoDup; [apply Permutation_map, P | exact ND]).
+  destruct (in_dec string_dec n (map fst m)) as [Hin|Hout].
+  - apply in_map_iff in Hin. destruct Hin as [[k v] [Hk Hin]]. cbn in Hk. subst k.
+    rewrite (find_key_in m n v ND Hin).
+    rewrite (find_key_in m' n v ND' (Permutation_in _ P Hin)). reflexivity.
+  - rewrite (find_key_none m n Hout).
+    rewrite (find_key_none m' n); [reflexivity|].
+    intros H. apply Hout. eapply Permutation_in; [apply Permutation_sym, Permutation_map, P | exact H].
+Qed.
+Theorem translate_order_independent (m m' : list (string * string)) names :
+  NoDup (map fst m) -> Permutation m m' -> translate m names = translate m' names.
+Proof. intros ND P. unfold translate. apply map_ext. intros n. apply lookup_perm; assumption. Qed.
+
+(* names that are not keys stay; keys go to their values, whatever the values are (also other parameter names) *)
+Theorem translate_spec m names j n : nth_error names j = Some n ->
+  nth_error (translate m names) j =
+  Some (match find (fun kv => String.eqb (fst kv) n) m with Some kv => snd kv | None => n end).
+Proof. intros H. unfold translate. rewrite nth_error_map, H. reflexivity. Qed.
+
+Theorem translate_chained_refuted : exists m names,
+  NoDup (map fst m) /\ NoDup names /\ translate_chained m names <> translate m names.
+Proof.
+  exists [("a", "b")%string; ("b", "c")%string], ["a"; "b"]%string. repeat split.
+  - repeat constructor; cbn; intuition discriminate.
+  - repeat constructor; cbn; intuition discriminate.
+  - cbn. discriminate.
+Qed.
+
+
+Lemma list_sum_cons x l : list_sum (x :: l) = x + list_sum l.
+Proof. reflexivity. Qed.
+
+Lemma count_occ_sum k draws : Forall (fun d => d < k) draws -> list_sum (counts k draws) = List.length draws.
+Proof.
+  unfold counts. induction 1 as [|d draws Hd _ IH]; cbn [count_occ List.length].
+  - induction (seq 0 k) as [|x l IHl]; [reflexivity | cbn; exact IHl].
+  - rewrite <- IH. clear IH.
+    assert (G : forall s, NoDup s -> list_sum (map (fun m => if Nat.eq_dec d m then S (count_occ Nat.eq_dec draws m) else count_occ Nat.eq_dec draws m) s)
+                = (if in_dec Nat.eq_dec d s then 1 else 0) + list_sum (map (fun m => count_occ Nat.eq_dec draws m) s)).
+    { induction s as [|x s IHs]; intros ND; [reflexivity|]. inversion ND; subst.
+      cbn [map]. rewrite !list_sum_cons, IHs by assumption.
+      destruct (Nat.eq_dec d x) as [->|Hne].
+      - destruct (in_dec Nat.eq_dec x (x :: s)) as [_|Hn]; [|exfalso; apply Hn; left; reflexivity].
+        destruct (in_dec Nat.eq_dec x s); [contradiction | lia].
+      - destruct (in_dec Nat.eq_dec d (x :: s)) as [[He|Hi]|Hn]; [congruence | |].
+        + destruct (in_dec Nat.eq_dec d s); [lia | contradiction].
+        + destruct (in_dec Nat.eq_dec d s) as [Hi|_]; [exfalso; apply Hn; right; exact Hi | lia]. }
+    replace (map (fun m => count_occ Nat.eq_dec (d :: draws) m) (seq 0 k))
+      with (map (fun m => if Nat.eq_dec d m then S (count_occ Nat.eq_dec draws m) else count_occ Nat.eq_dec draws m) (seq 0 k)).
+    2:{ apply map_ext. intros m. cbn [count_occ]. destruct (Nat.eq_dec d m); reflexivity. }
+    rewrite (G _ (seq_NoDup k 0)).
+    destruct (in_dec Nat.eq_dec d (seq 0 k)) as [_|Hn]; [lia|]. exfalso. apply Hn. apply in_seq. lia.
+Qed.
+
+Lemma id_models_length cs : List.length (id_models cs) = list_sum cs.
+Proof.
+  unfold id_models.
+  assert (G : forall l, List.length (flat_map (fun m => repeat m (nth m cs 0)) l) = list_sum (map (fun m => nth m cs 0) l)).
+  { induction l as [|x l IH]; [reflexivity|]. cbn [flat_map map]. rewrite list_sum_cons, app_length, repeat_length, IH. reflexivity. }
+  rewrite G. f_equal. clear G.
+  (* map (nth . cs 0) (seq 0 (List.length cs)) = cs *)
+  induction cs as [|c cs IH] using rev_ind; [reflexivity|].
+  rewrite app_length. cbn [List.length]. rewrite Nat.add_1_r, seq_S, map_app. cbn [map].
+  rewrite app_nth2, Nat.sub_diag by lia. cbn [nth]. f_equal.
+  rewrite <- IH at 2. apply map_ext_in. intros m Hm. apply in_seq in Hm. apply app_nth1. lia.
+Qed.
+
+(* every sample ID belongs to exactly one model; model m owns count m consecutive IDs *)
+Theorem pam_partition k draws : Forall (fun d => d < k) draws ->
+  List.length (id_models (counts k draws)) = List.length draws /\
+  forall m, m < k -> count_occ Nat.eq_dec (id_models (counts k draws)) m = count_occ Nat.eq_dec draws m.
+Proof.
+  intros F. split; [rewrite id_models_length; apply count_occ_sum, F|].
+  intros m Hm. unfold id_models. unfold counts at 2. rewrite map_length, seq_length.
+  assert (G : forall l, NoDup l -> count_occ Nat.eq_dec (flat_map (fun j => repeat j (nth j (counts k draws) 0)) l) m =
+                        if in_dec Nat.eq_dec m l then nth m (counts k draws) 0 else 0).
+  { induction l as [|x l IH]; intros ND; [reflexivity|]. inversion ND; subst.
+    cbn [flat_map]. rewrite count_occ_app, IH by assumption.
+    destruct (Nat.eq_dec x m) as [->|Hne].
+    - rewrite count_occ_repeat_eq by reflexivity.
+      destruct (in_dec Nat.eq_dec m (m :: l)) as [_|Hn]; [|exfalso; apply Hn; left; reflexivity].
+      destruct (in_dec Nat.eq_dec m l); [contradiction | lia].
+    - rewrite count_occ_repeat_neq by (intro; apply Hne; congruence).
+      destruct (in_dec Nat.eq_dec m (x :: l)) as [[He|Hi]|Hn]; [congruence | |].
+      + destruct (in_dec Nat.eq_dec m l); [reflexivity | contradiction].
+      + destruct (in_dec Nat.eq_dec m l) as [Hi|_]; [exfalso; apply Hn; right; exact Hi | reflexivity]. }
+  rewrite (G _ (seq_NoDup k 0)).
+  destruct (in_dec Nat.eq_dec m (seq 0 k)) as [_|Hn]; [|exfalso; apply Hn; apply in_seq; lia].
+  unfold counts. rewrite (nth_indep _ 0 ((fun j => count_occ Nat.eq_dec draws j) 0)) by (rewrite map_length, seq_length; exact Hm).
+  rewrite (map_nth (fun j => count_occ Nat.eq_dec draws j)), seq_nth by exact Hm. reflexivity.
+Qed.
+
+(* the counts of numpy.unique are those counts only if every model was drawn *)
+Theorem counts_unique_refuted : exists k draws, Forall (fun d => d < k) draws /\
+  id_models (counts_unique k draws) <> id_models (counts k draws).
+Proof. exists 3, [0; 2; 2]. split; [repeat constructor | cbn; discriminate]. Qed.
